@@ -34,7 +34,7 @@ fn ctx_for(p: &Prog) -> DapCtx<'_> {
     }
     // an instruction inside the loop (its header, reached on every iteration) when there is one
     let insns = ["while", "main.emit"].iter().filter_map(|m| p.line_of(m)).map(|l| p.stmt_addrs(l)).find(|a| !a.is_empty()).unwrap_or_default().into_iter().filter(|a| p.in_trace(*a)).take(1).collect();
-    DapCtx { p, lines, fns, insns }
+    DapCtx { p, lines, fns, insns, fn_fallback: vec![] }
 }
 
 fn c12_alphabet() -> Vec<Sym> {
@@ -233,7 +233,7 @@ pub fn part_second_lifecycle(tier: Tier) -> Part {
         let mut unreproducible: Vec<String> = vec![];
         for (name, path, at, d) in results {
             let Some(d) = d else { continue };
-            let replay = json!({"engine":"dap","prop":"C12","exe":cx.p.built.exe,"lines":cx.lines,"fns":cx.fns,"insns":cx.insns,"path":path,"history":path.iter().map(|a| a.label()).collect::<Vec<_>>()});
+            let replay = json!({"engine":"dap","prop":"C12","exe":cx.p.built.exe,"lines":cx.lines,"fns":cx.fns,"insns":cx.insns,"fn_fallback":cx.fn_fallback,"path":path,"history":path.iter().map(|a| a.label()).collect::<Vec<_>>()});
             part.states += 1;
             part.transitions += path.len() as u64;
             part.evaluations += 1;
@@ -328,9 +328,23 @@ fn c13_oracle(cx: &DapCtx, before: &DModel, after: &mut DModel, sym: &Sym, obs: 
         // actually patched is accepted (address choice is C04's subject): use the patch set
         let name = &cx.fns[*k as usize];
         let diff: Vec<u64> = obs["proc"]["text_diff"].as_array().map(|a| a.iter().filter_map(|x| x.as_u64()).collect()).unwrap_or_default();
+        let mut patched_inside = false;
         for fu in cx.p.dref.live_funcs().iter().filter(|fu| fu.name.split('<').next() == Some(name.as_str())) {
             for a in &diff {
-                if fu.ranges.iter().any(|(lo, hi)| lo + cx.p.base <= *a && *a < hi + cx.p.base) && !locs.iter().any(|l| l.0 == *a) {
+                if fu.ranges.iter().any(|(lo, hi)| lo + cx.p.base <= *a && *a < hi + cx.p.base) {
+                    patched_inside = true;
+                    if !locs.iter().any(|l| l.0 == *a) {
+                        locs.push((*a, None));
+                    }
+                }
+            }
+        }
+        // the overlap part knows where the function breakpoint belongs (the first statement, which
+        // its line breakpoint shares): a function of the latest set with no patch to be seen
+        // (process gone, or the location lost) is still due there
+        if !patched_inside && *k == 0 {
+            for a in &cx.fn_fallback {
+                if !locs.iter().any(|l| l.0 == *a) {
                     locs.push((*a, None));
                 }
             }
@@ -501,6 +515,67 @@ pub fn part_c13(tier: Tier) -> Part {
     }
     part.traces_validated = part.transitions;
     let _ = Duration::from_secs(0);
+    part
+}
+
+/// Records of different kinds on ONE instruction: a source breakpoint on the first statement of a
+/// function, a function breakpoint on that function and an instruction breakpoint on the same
+/// address, set and cleared in every order.
+pub fn part_c13_overlap(tier: Tier) -> Part {
+    let mut part = Part::new("dap-breakpoint-replace-overlapping-records");
+    let mut alphabet = vec![
+        Sym::Initialize,
+        Sym::Launch,
+        Sym::ConfigurationDone,
+        Sym::Continue,
+        Sym::SetBps(vec![]),
+        Sym::SetBps(vec![(0, BpOpt::Plain)]),
+        Sym::SetFnBps(vec![]),
+        Sym::SetFnBps(vec![0]),
+        Sym::SetInsnBps(vec![]),
+        Sym::SetInsnBps(vec![0]),
+    ];
+    if tier == Tier::Thorough {
+        alphabet.push(Sym::SetBps(vec![(1, BpOpt::Plain)]));
+    }
+    let cfg = DapCfg { prop: "C13", depth: if tier == Tier::Quick { 6 } else { 8 }, alphabet, wall: wall_cap(tier, 45, 1500), c13: true };
+    part.bounds = json!({"symbols": cfg.alphabet.len(), "depth": cfg.depth, "wall_cap_s": cfg.wall.as_secs()});
+    part.rule = "explicit-state search over histories of initialize/launch/configurationDone/continue interleaved with set-requests of three kinds whose records share ONE instruction: setBreakpoints {none, the first statement of function ff; thorough: also a loop-body line}, setFunctionBreakpoints {none, ff} (its location is that same first statement), setInstructionBreakpoints {none, the address of that statement}; after every resume the stop must be the next arrival of the reference trace at a location of the union of the LATEST sets - clearing or replacing one kind's set must not take away the location another kind's latest set still names. The canonical state of this search also holds the order of the kinds' latest requests and whether each was empty, because which record owns the shared instruction depends on it".into();
+    let ps = match progs(vec![vec![Stmt::While(2), Stmt::CallF]]) {
+        Ok(p) => p,
+        Err(e) => {
+            part.violate("C13:machinery:corpus", e, json!({}));
+            part.exhaustive = false;
+            return part;
+        }
+    };
+    let deadline = Instant::now() + cfg.wall;
+    let oracle = oracle_for("C13");
+    for p in &ps {
+        let (Some(l0), Some(l1)) = (p.line_of("ff.1"), p.line_of("body1")) else {
+            part.violate("C13:machinery:no-line", "ff.1 / body1".to_string(), json!({}));
+            continue;
+        };
+        let a0: Vec<u64> = p.stmt_addrs(l0).into_iter().take(1).collect();
+        if a0.is_empty() || !p.in_trace(a0[0]) {
+            part.violate("C13:machinery:no-address", format!("line {l0}"), json!({}));
+            continue;
+        }
+        let cx = DapCtx { p, lines: vec![l0, l1], fns: vec!["ff".into()], insns: a0.clone(), fn_fallback: a0.clone() };
+        // the premise of the part, checked on the simplest history: the function breakpoint
+        // alone stops on that instruction
+        let probe = vec![Sym::Initialize, Sym::Launch, Sym::SetFnBps(vec![0]), Sym::ConfigurationDone];
+        let d = crate::dapx::drive(&cx, &cfg, &probe, &*oracle);
+        let pc = d.obs.last().and_then(|o| o["proc"]["pc"].as_u64());
+        if pc != Some(a0[0]) {
+            part.exhaustive = false;
+            part.caps_hit.push(format!("premise not met: a function breakpoint on ff alone stops at {pc:x?}, the first statement is {:#x}; the part was skipped", a0[0]));
+            continue;
+        }
+        part.extra.insert("context".into(), json!({"engine":"dap","prop":"C13","exe":cx.p.built.exe,"lines":cx.lines,"fns":cx.fns,"insns":cx.insns,"fn_fallback":cx.fn_fallback}));
+        explore(&cx, &cfg, &mut part, deadline, &*oracle);
+    }
+    part.traces_validated = part.transitions;
     part
 }
 
